@@ -65,14 +65,20 @@ struct Site {
     raw: bool,
     /// element sites only: the array is stored as an indirect object of its own (object 52) and the entry refers to it
     indirect: bool,
+    /// element sites only: how many times the dangling element is appended (the same missing object named twice)
+    repeat: usize,
 }
 
 fn sites() -> Vec<Site> {
-    let o = |obj: u64, path: &[&'static str], what: &'static str| Site { obj, path: path.to_vec(), elem: None, required: false, what, raw: what.contains("(Ref)") || what.contains("(Lazy)") && what.starts_with("value") || what.contains("(Primitive)") || what.contains("catch-all"), indirect: false };
-    let r = |obj: u64, path: &[&'static str], what: &'static str| Site { obj, path: path.to_vec(), elem: None, required: true, what, raw: false, indirect: false };
-    let e = |obj: u64, path: &[&'static str], what: &'static str| Site { obj, path: path.to_vec(), elem: Some(usize::MAX), required: false, what, raw: false, indirect: false };
-    let ei = |obj: u64, path: &[&'static str], what: &'static str| Site { obj, path: path.to_vec(), elem: Some(usize::MAX), required: false, what, raw: false, indirect: true };
+    let o = |obj: u64, path: &[&'static str], what: &'static str| Site { obj, path: path.to_vec(), elem: None, required: false, what, raw: what.contains("(Ref)") || what.contains("(Lazy)") && what.starts_with("value") || what.contains("(Primitive)") || what.contains("catch-all"), indirect: false, repeat: 1 };
+    let r = |obj: u64, path: &[&'static str], what: &'static str| Site { obj, path: path.to_vec(), elem: None, required: true, what, raw: false, indirect: false, repeat: 1 };
+    let e = |obj: u64, path: &[&'static str], what: &'static str| Site { obj, path: path.to_vec(), elem: Some(usize::MAX), required: false, what, raw: false, indirect: false, repeat: 1 };
+    let ei = |obj: u64, path: &[&'static str], what: &'static str| Site { obj, path: path.to_vec(), elem: Some(usize::MAX), required: false, what, raw: false, indirect: true, repeat: 1 };
+    let e2 = |obj: u64, path: &[&'static str], what: &'static str| Site { obj, path: path.to_vec(), elem: Some(usize::MAX), required: false, what, raw: false, indirect: false, repeat: 2 };
     vec![
+        e2(21, &["Kids"], "two elements of name tree Kids naming the same missing object"),
+        e2(4, &["Annots"], "two elements of Page/Annots naming the same missing object"),
+        e2(1, &["AcroForm", "Fields"], "two elements of AcroForm/Fields naming the same missing object"),
         ei(4, &["Annots"], "element of Page/Annots, array indirect"),
         ei(4, &["Contents"], "element of Page/Contents, array indirect"),
         ei(12, &["DescendantFonts"], "extra element of DescendantFonts (MaybeRef), array indirect"),
@@ -165,6 +171,8 @@ fn mutate(objs: &[(u64, Val)], site: &Site, target: Option<u64>) -> Option<Vec<(
     let v = &mut o.iter_mut().find(|(n, _)| *n == site.obj)?.1;
     let mut moved: Option<Val> = None;
     let indirect = site.indirect;
+    // (the number of repetitions travels in `elem`: Some(usize::MAX - (repeat - 1)))
+    let elem = site.elem.map(|e| e - (site.repeat - 1));
     fn go(v: &mut Val, path: &[&'static str], elem: Option<usize>, target: Option<u64>, indirect: bool, moved: &mut Option<Val>) -> bool {
         if path.len() == 1 {
             match elem {
@@ -188,7 +196,9 @@ fn mutate(objs: &[(u64, Val)], site: &Site, target: Option<u64>) -> Option<Vec<(
                         single => vec![single],
                     };
                     if let Some(t) = target {
-                        arr.push(Val::Ref(t, 0));
+                        for _ in 0..=(usize::MAX - elem.unwrap()) {
+                            arr.push(Val::Ref(t, 0));
+                        }
                     }
                     if indirect {
                         *moved = Some(Val::Array(arr));
@@ -210,7 +220,7 @@ fn mutate(objs: &[(u64, Val)], site: &Site, target: Option<u64>) -> Option<Vec<(
             }
         }
     }
-    if go(v, &site.path, site.elem, target, indirect, &mut moved) {
+    if go(v, &site.path, elem, target, indirect, &mut moved) {
         if let Some(m) = moved {
             o.push((52, m));
         }
